@@ -174,8 +174,10 @@ class AddingVisitor(ImportInfoVisitor):
             and import_info.level == self.import_info.level
         ):
             if import_info.is_star_import():
-                return True
+                return _covered_by_star(self.import_info)
             if self.import_info.is_star_import():
+                if not _covered_by_star(import_info):
+                    return False
                 import_stmt.import_info = self.import_info
                 return True
             if self.project.prefs.get("split_imports"):
@@ -361,6 +363,14 @@ class RemovePyNameVisitor(ImportInfoVisitor):
         result = ImportInfoVisitor.dispatch(self, import_)
         if result is not None:
             import_.import_info = result
+
+
+def _covered_by_star(info):
+    """Whether ``from module import *`` binds everything `info` binds"""
+    return all(
+        alias is None and not name.startswith("_")
+        for name, alias in info.names_and_aliases
+    )
 
 
 def _is_future(info):
